@@ -71,7 +71,7 @@ def run(ctx):
         jobs.append((p, True))
     for p in sorted(glob.glob(os.path.join(VERIF, 'refactors', ctx.prop + '-R*', 'patch.diff'))):
         jobs.append((p, False))
-    with ThreadPoolExecutor(max_workers=8) as ex:
+    with ThreadPoolExecutor(max_workers=12) as ex:
         res = list(ex.map(lambda j: dict(run_one(ctx.prop, j[0], ctx.root, j[1]), kind='mutant' if j[1] else 'benign',
                                          path=os.path.relpath(j[0], VERIF)), jobs))
     ctx.selftest = {'mutants_caught': sum(1 for r in res if r['result'] == 'caught'),
